@@ -135,6 +135,11 @@ enum Tamper {
     Delete { path: String },
     MetaEdit { path: String, what: String, doc: Vec<u8> },
     OlderMeta { path: String, doc: Vec<u8>, which: usize },
+    /// Two sites that belong together in the pre-0.10 layout: a metadata document WITHOUT a
+    /// generation pointer resolves to `data/<key>`, so "stripping the pointer" is only a complete
+    /// attack together with a payload staged there. `doc` = a donor document (another key's, or an
+    /// earlier one of this key) with a set of fields stripped, `payload_from` = the donor's payload.
+    LegacyDowngrade { path: String, what: String, doc: Vec<u8>, stage: String, payload_from: String },
 }
 
 impl Tamper {
@@ -149,6 +154,7 @@ impl Tamper {
             Tamper::Delete { path } => format!("delete {path}"),
             Tamper::MetaEdit { path, what, .. } => format!("metadata edit of {path}: {what}"),
             Tamper::OlderMeta { path, which, .. } => format!("replace {path} by its own earlier document #{which}"),
+            Tamper::LegacyDowngrade { path, what, stage, payload_from, .. } => format!("legacy downgrade of {path}: {what}, with the bytes of {payload_from} staged at {stage}"),
         }
     }
     fn apply(&self, s: &Snapshot) -> Snapshot {
@@ -180,6 +186,11 @@ impl Tamper {
             Tamper::MetaEdit { path, doc, .. } | Tamper::OlderMeta { path, doc, .. } => {
                 t.insert(path.clone(), doc.clone());
             }
+            Tamper::LegacyDowngrade { path, doc, stage, payload_from, .. } => {
+                t.insert(path.clone(), doc.clone());
+                let w = s[payload_from].clone();
+                t.insert(stage.clone(), w);
+            }
         }
         t
     }
@@ -192,6 +203,7 @@ impl Tamper {
             | Tamper::ChunkSwap { path, .. }
             | Tamper::Delete { path }
             | Tamper::MetaEdit { path, .. }
+            | Tamper::LegacyDowngrade { path, .. }
             | Tamper::OlderMeta { path, .. } => vec![path],
             Tamper::Replace { path, .. } => vec![path],
             Tamper::Swap { a, b } => vec![a, b],
@@ -343,6 +355,44 @@ fn enumerate_tampers(s: &Snapshot, chunk: u64, bit_mask: u8, older: &BTreeMap<St
                         let mut d = doc.clone();
                         cset(&mut d, "g", Some(Cv::Text(g.to_string())));
                         push(format!("re-point generation to {g}"), &d);
+                    }
+                }
+            }
+        }
+    }
+    // (6) legacy downgrade: every donor document (current ones of every key, earlier ones of every
+    // key) whose payload is still in the backend, stripped of its generation pointer and of subsets
+    // of the authentication fields, installed for every key together with the donor's payload
+    // staged at the key's pre-0.10 payload path
+    {
+        let mut donors: Vec<(String, Cv)> = metas.iter().map(|(p, d)| (format!("current {p}"), d.clone())).collect();
+        for (p, docs) in older {
+            for (i, d) in docs.iter().enumerate() {
+                if let Ok(v) = cbor2::from_slice::<Cv>(d) {
+                    donors.push((format!("earlier #{i} of {p}"), v));
+                }
+            }
+        }
+        let strips: [&[&str]; 6] = [&["g"], &["an", "at", "g"], &["an", "at", "g", "m"], &["an", "at", "g", "av"], &["an", "at", "g", "av", "m"], &["at", "g"]];
+        for (p, _) in &metas {
+            let loc = p.strip_prefix("meta/").unwrap();
+            for (dname, ddoc) in &donors {
+                let Some(Cv::Text(g)) = cget(ddoc, "g") else { continue };
+                // the donor's payload object: gen/<donor key>/<g>
+                let Some(from) = paths.iter().find(|q| q.starts_with("gen/") && q.ends_with(&format!("/{g}"))) else { continue };
+                for st in strips {
+                    let mut d = ddoc.clone();
+                    for f in st {
+                        cset(&mut d, f, None);
+                    }
+                    if let Ok(bytes) = cbor2::to_vec(&d) {
+                        out.push(Tamper::LegacyDowngrade {
+                            path: (*p).clone(),
+                            what: format!("document of {dname} without {st:?}"),
+                            doc: bytes,
+                            stage: format!("data/{loc}"),
+                            payload_from: (*from).clone(),
+                        });
                     }
                 }
             }
@@ -811,6 +861,7 @@ pub fn run_case(case: &Case, ctx: &mut CaseCtx) -> Result<(), String> {
                 Tamper::Delete { .. } => ctx.count("t_delete", 1),
                 Tamper::MetaEdit { .. } => ctx.count("t_meta_edit", 1),
                 Tamper::OlderMeta { .. } => ctx.count("t_older_meta", 1),
+                Tamper::LegacyDowngrade { .. } => ctx.count("t_legacy_downgrade", 1),
             }
         }
         ctx.count("tampers", tampers.len() as u64);
@@ -832,12 +883,12 @@ pub fn run_case(case: &Case, ctx: &mut CaseCtx) -> Result<(), String> {
 }
 
 pub fn run(r: &mut Runner) {
-    r.assume("single-site tampering only (one object / one document / one swap at a time), as the property quantifies; a coordinated roll-back of a key's metadata AND payload to an earlier commit is outside it");
+    r.assume("single-site tampering (one object / one document / one swap at a time), as the property quantifies, plus ONE two-site family: a metadata document without generation pointer together with a payload staged at the pre-0.10 path it then resolves to. A coordinated roll-back of a key's AUTHENTIC metadata and payload to an earlier commit is outside the property (no store can detect it without external state)");
     r.assume("nonce uniqueness is checked over the generated histories (no birthday-bound statement); AES-GCM itself is trusted");
     let tier = r.tier;
     r.sub(
         "tamper_matrix",
-        "generated write scripts (2-6 of put/multipart/copy/rename over 3 keys, sizes across chunk boundaries, chunk 7/16/64, strict and compatibility metadata_auth); after every script op: no 12-byte plaintext window in any backend object, no nonce shared by two different (chunk, ciphertext) pairs; then EVERY tamper of the family {each byte x selected bit flips (all 8 in thorough) of every payload and metadata object, every truncation length, 3 extensions, deletion, chunk-window swaps, replacement by / swap with every other backend object, structured CBOR edits of every metadata field (drop, null, take from another key's document, every subset of an/at/av/g/m stripped, size+-1, tag list edits, chunk size, re-pointed generation), the key's own earlier documents} is applied to a copy of the backend and every read path (get, 8 range shapes, get_ranges, head, 3 listings, copy+get, rename+get) through a fresh EncryptedStore must return the written bytes or fail. Non-trivial = at least one read was made to fail by a tamper",
+        "generated write scripts (2-6 of put/multipart/copy/rename over 3 keys, sizes across chunk boundaries, chunk 7/16/64, strict and compatibility metadata_auth); after every script op: no 12-byte plaintext window in any backend object, no nonce shared by two different (chunk, ciphertext) pairs; then EVERY tamper of the family {each byte x selected bit flips (all 8 in thorough) of every payload and metadata object, every truncation length, 3 extensions, deletion, chunk-window swaps, replacement by / swap with every other backend object, structured CBOR edits of every metadata field (drop, null, take from another key's document, every subset of an/at/av/g/m stripped, size+-1, tag list edits, chunk size, re-pointed generation), the key's own earlier documents, and the two-site legacy downgrade (every donor document - another key's or an earlier one - without its generation pointer and without subsets of an/at/av/m, installed for every key together with the donor's payload staged at the key's pre-0.10 payload path data/<key>)} is applied to a copy of the backend and every read path (get, 8 range shapes, get_ranges, head, 3 listings, copy+get, rename+get) through a fresh EncryptedStore must return the written bytes or fail. Non-trivial = at least one read was made to fail by a tamper",
         (400, 12000),
         move || case_strategy(tier),
         run_case,
